@@ -12,13 +12,14 @@ LEVEL = 'exploration'
 def run(ctx, only=None):
     bindir = libmon.build()
     budget = 100000 if ctx.tier == 'quick' else 3000000
-    recs, rc, err = libmon.run_bin(bindir, 'c16_lattice', ['--seed=%d' % ctx.seed, '--triples=%d' % budget])
+    args = ['--seed=%d' % ctx.seed, '--triples=%d' % budget]
+    recs, rc, err = libmon.run_bin(bindir, 'c16_lattice', args)
     ctx.rule = ('every shipped Lattice impl (bool, integers, Option, Rc/Arc/Box with unique and shared ownership, Reverse, Dual, OrdLattice, tuples, Product of tuples and arrays, '
                 'Set, BoundedSet<0|2|3>, ConstPropagation, nested compositions) over small carriers incl. extremal and incomparable elements: ALL pairs (commutativity, idempotence, '
                 'absorption, order <-> join <-> meet agreement, join_mut / meet_mut value and change flag, Dual / Reverse swapping, top / bottom extremal) and all triples '
                 '(associativity) when carrier^3 <= budget, else a random sample. case = (type, pair | triple); non-trivial = a pair with a != b; distinct = distinct (type, pair)')
     ctx.assumptions = ['the laws are evaluated on results of the real methods; equality is the type\'s own PartialEq']
-    if not any(r.get('done') for r in recs):
+    if not any(r.get('done') for r in recs) and not libmon.report_crash(ctx, 'c16_lattice', args, rc, err):
         ctx.inconc('monitor binary did not finish (rc=%s): %s' % (rc, err[-300:]))
     types = [r for r in recs if 'carrier' in r]
     allex = True
